@@ -53,6 +53,16 @@ const (
 
 var c01names = [...]string{"gc", "ic", "ec", "gn", "in", "uc", "un", "vi", "vn", "rc", "rn", "pn", "xc", "bc"}
 
+// c01unknownName is a method nobody handles: an ordinary unknown name or, for every other
+// member, an unknown name in the reserved rpc. space - both are method-not-found for a
+// call and silence for a notification.
+func c01unknownName(tag string) string {
+	if vt.Hash64("c01unknown/"+tag)%2 == 0 {
+		return "rpc.nosuch"
+	}
+	return "nosuch"
+}
+
 const c01bcBase = 9000
 
 // c01isBC recognises the ids c01build gives to c01bc members.
@@ -86,9 +96,9 @@ func (m c01member) wire() string {
 	case c01in:
 		return peer.Req("", "i", m.tag)
 	case c01uc:
-		return peer.Req(m.id, "nosuch", m.tag)
+		return peer.Req(m.id, c01unknownName(m.tag), m.tag)
 	case c01un:
-		return peer.Req("", "nosuch", m.tag)
+		return peer.Req("", c01unknownName(m.tag), m.tag)
 	case c01vi:
 		return fmt.Sprintf(`{"jsonrpc":"1.0","id":%s,"method":"i","params":{"t":%q}}`, m.id, m.tag)
 	case c01vn:
